@@ -57,8 +57,9 @@ def order_conditions():
             c.prove("%s:not-order-%d" % (base, order + 1), z3.Or(*[z3.RealVal(l) != z3.RealVal(r) for _, l, r in nxt]))
 
 
-def native_collocation():
-    """runs replay/colloc_tables.py on the real CasADi and turns its verdicts into obligations"""
+def native_collocation(only=None):
+    """runs replay/colloc_tables.py on the real CasADi and turns its verdicts into obligations
+    (only: prefixes of the obligations to keep, e.g. the polynomial tables without the quadrature weights)"""
     c = ctx()
     repo = os.environ.get("VERIF_REPO", "/repo")
     env = dict(os.environ, PYTHONPATH=repo + os.pathsep + VERIF, PYTHONDONTWRITEBYTECODE="1")
@@ -68,6 +69,8 @@ def native_collocation():
         raise RuntimeError("native collocation table harness failed: " + p.stderr[-500:])
     res = json.loads(p.stdout.strip().splitlines()[-1])
     for r in res:
+        if r["what"] == "casadi-tables" or (only and not r["what"].startswith(tuple(only))):
+            continue
         name = "direct_collocation:DirectCollocation.__init__:ensures:%s[d=%d,%s]" % (r["what"], r["degree"], r["scheme"])
         if r["ok"]:
             c.ok(name, detail=r.get("detail"), backend="enumerated-native")
@@ -75,7 +78,7 @@ def native_collocation():
             c.fail(name, r.get("detail"))
     # the casadi model's own tables agree with the real ones (validation of the assumed contract)
     for r in res:
-        if r["what"] != "tables":
+        if r["what"] != "casadi-tables":
             continue
         tau = ca.collocation_points(r["degree"], r["scheme"])
         C, D, B = ca.collocation_coeff(tau)
@@ -138,7 +141,7 @@ def simulator_plumbing():
 def tasks(tier):
     from . import c01, props
     out = [Task("C03/order-conditions", order_conditions, kind="proof", note="exact rational identities of the tableaux used by the C01 oracle"),
-           Task("C03/collocation-tables", native_collocation, kind="enumerated", bound=dict(degree="1..7", schemes=["radau", "legendre"], tolerance=1e-9))]
+           Task("C03/collocation-tables", native_collocation, kind="enumerated", replay=dict(harness="colloc_probe"), bound=dict(degree="1..7", schemes=["radau", "legendre"], tolerance=1e-9))]
     for method in ("MS", "SS"):
         for intg in ("cvodes", "idas", "collocation"):
             for M in (1, 2):
